@@ -727,7 +727,9 @@ func checkStored(c *core.Check, ex *extractor, key, kw string, pos token.Pos) {
 	}
 	for _, rhs := range ex.stores {
 		s, lowered := ex.inputOf(rhs)
-		ok := s == ex.input && (lowered == storedLower[kw])
+		// a value that was validated in lower case means what its lower-case spelling means: it is stored that way
+		// (every consumer compares exactly); everything else is stored as written
+		ok := s == ex.input && (lowered == (storedLower[kw] || ex.d.lower))
 		c.Decide(ok, "C16.stored", key+":store", rhs.Pos(), "stores the validated input"+map[bool]string{true: " (lower-cased)", false: ""}[lowered],
 			fmt.Sprintf("stores %s (lowered=%v) but validated %s; keyword-valued attributes store lower case, all others store the input unchanged", s, lowered, ex.input))
 	}
